@@ -15,11 +15,8 @@ limitations under the License.
 
 package syncutil
 
-import (
-	"sync"
-
-	"oras.land/oras-go/v2/internal/verifhook"
-)
+import "sync"
+import "oras.land/oras-go/v2/internal/verifhook"
 
 // mergeStatus represents the merge status of an item.
 type mergeStatus struct {
